@@ -597,3 +597,73 @@ def hierarchical_calls(rng):
         yield {"seqs": s_, "metric": NONE,
                "linkage_kws": {"t": "dict", "items": rng.choice([{"method": B("average"), "optimal_ordering": B(True)}, {"method": B("single")}])},
                "cluster_kws": {"t": "dict", "items": rng.choice([{"t": B(6), "criterion": B("distance")}, {"t": B(2), "criterion": B("maxclust")}])}}
+
+
+# ---- C12 utilities.  Neighbourhoods are the real generators restricted to the alphabet {A, C} (so that every reachable string lies in
+# the finite string universe the concrete quantifiers range over: all strings over {A, C} of length <= 4)
+NB = ["(lambda x: prs.distance.hamming_neighbors(x, alphabet='AC'))", "(lambda x: prs.distance.levenshtein_neighbors(x, alphabet='AC'))"]
+_AC = [""] + ["".join(t) for n in range(1, 4) for t in itertools.product("AC", repeat=n)]
+
+
+def _refs(rng, kind=None):
+    xs = rng.sample(_AC, rng.randint(0, 6))
+    return seq([S(x) for x in xs], kind or rng.choice(["set", "list"]))
+
+
+@scope("isdist1_calls")
+def isdist1_calls(rng):
+    while True:
+        yield {"x": S(rng.choice(_AC)), "reference": _refs(rng), "neighborhood": py(rng.choice(NB))}
+
+
+@scope("neighbor_numbers_calls")
+def neighbor_numbers_calls(rng):
+    while True:
+        xs = [rng.choice(_AC) for _ in range(rng.randint(0, 6))]
+        yield {"seqs": seq([S(x) for x in xs], "list"), "reference": rng.choice([NONE, _refs(rng, "set")]), "neighborhood": py(rng.choice(NB))}
+
+
+@scope("next_nearest_calls")
+def next_nearest_calls(rng):
+    for x in ["", "A", "C", "AC", "AA"]:
+        for nb in NB:
+            for d in (1, 2, 3):
+                if len(x) + d <= 4:
+                    yield {"x": S(x), "neighborhood": py(nb), "maxdistance": I(d)}
+
+
+@scope("isdist_hamming_calls")
+def isdist_hamming_calls(rng):
+    while True:
+        n = rng.randint(0, 4)
+        x = "".join(rng.choice("AC") for _ in range(n))
+        refs = ["".join(rng.choice("AC") for _ in range(n)) for _ in range(rng.randint(0, 4))] + rng.sample(_AC, 2)
+        yield {"x": S(x), "reference": seq([S(r) for r in refs], rng.choice(["set", "list"]))}
+
+
+@scope("nndist_calls")
+def nndist_calls(rng):
+    for rec in isdist_hamming_calls(rng):
+        yield {"seq": rec["x"], "reference": rec["reference"], "maxdist": I(rng.choice([1, 2, 3, 4, 4, 5]))}
+
+
+@scope("neighbor_pairs_calls")
+def neighbor_pairs_calls(rng):
+    while True:
+        xs = [rng.choice(_AC) for _ in range(rng.randint(0, 7))]
+        yield {"seqs": seq([S(x) for x in xs], "list"), "neighborhood": py(rng.choice(NB))}
+
+
+@scope("neighbor_pairs_sets")
+def neighbor_pairs_sets(rng):
+    for k in range(0, 6):
+        for comb in itertools.combinations(_AC, k):
+            for nb in NB:
+                yield {"seqs": seq([S(x) for x in comb], "list"), "neighborhood": py(nb)}
+                if k > 1:
+                    yield {"seqs": seq([S(x) for x in reversed(comb)], "list"), "neighborhood": py(nb)}
+            if k >= 4 and rng.random() < 0.9:
+                continue
+    while True:
+        xs = [rng.choice(["A", "B", "AB", "BA", "AA", "ABC", "CBA", "AAB"]) for _ in range(rng.randint(0, 7))]
+        yield {"seqs": seq([S(x) for x in xs], "list"), "neighborhood": py(rng.choice(["prs.distance.hamming_neighbors", "prs.distance.levenshtein_neighbors"]))}
